@@ -251,7 +251,9 @@ def c04_sweep_indices(res, run, world, lo, hi, subs):
     return True
 
 
-STATES = ["idle", "segdn", "segup", "blkdn", "dnwait", "blkupwait", "blkupsent"]
+STATES = ["idle", "segdn", "segup", "blkdn", "dnwait", "blkupwait", "blkupsent",
+          "done-expdn", "done-expup", "done-segdn", "done-segup", "done-blkdn", "done-blkup"]
+IDLE_LIKE = ("idle", "done-expdn", "done-expup", "done-segdn", "done-segup", "done-blkdn", "done-blkup")
 
 
 def enter_state(run, world, st, dom, bs=4):
@@ -265,6 +267,13 @@ def enter_state(run, world, st, dom, bs=4):
         "dnwait": [bytes([0xC2]) + m + le32(7), bytes([0x81]) + bytes(7)],
         "blkupwait": [bytes([0xA0]) + m + bytes([bs, 0, 0, 0])],
         "blkupsent": [bytes([0xA0]) + m + bytes([bs, 0, 0, 0]), bytes([0xA3]) + bytes(7)],
+        # completed transfers (the server must be idle again afterwards)
+        "done-expdn": [bytes([0x23, 0x00, 0x21, 0x02, 0x44, 0x33, 0x22, 0x11])],
+        "done-expup": [bytes([0x40, 0x00, 0x21, 0x02, 0, 0, 0, 0])],
+        "done-segdn": [bytes([0x21]) + m + le32(9), bytes([0x00, 1, 2, 3, 4, 5, 6, 7]), bytes([0x1B, 8, 9, 0, 0, 0, 0, 0])],
+        "done-segup": [bytes([0x40]) + RC.mux(0x2110, 5) + bytes(4), bytes([0x60]) + bytes(7)],
+        "done-blkdn": [bytes([0xC2]) + m + le32(7), bytes([0x81, 1, 2, 3, 4, 5, 6, 7]), bytes([0xC1]) + bytes(7)],
+        "done-blkup": [bytes([0xA0]) + RC.mux(0x2110, 5) + bytes([bs, 0, 0, 0]), bytes([0xA3]) + bytes(7), bytes([0xA2, 1, bs, 0, 0, 0, 0, 0]), bytes([0xA1]) + bytes(7)],
     }[st]
     for f in seq:
         run.step(0, f)
@@ -275,9 +284,7 @@ def allowed_counts(st, cmd, frame, bs):
     """Acceptable numbers of response frames for a frame arriving in protocol state st (relational model, section A.1)."""
     if cmd == 0x80:
         return (0, 1)
-    if st in ("idle", "segdn", "segup"):
-        if st != "idle" and (cmd & 0xE3) == 0xA0:
-            return (1, 1)
+    if st in IDLE_LIKE or st in ("segdn", "segup"):
         return (1, 1)
     if st == "blkdn":
         if (cmd & 0x7F) == 127 or (cmd & 0x80):
@@ -317,7 +324,8 @@ def c04_state_sweep(res, run, world, rng, st, cmds):
                     bytes([cmd]) + RC.mux(other.idx, other.sub) + gen.rand_bytes(rng, 4),
                     bytes([cmd, 1, 2, 0, 0, 0, 0, 0]),
                     bytes([cmd]) + b"\xff" * 7,
-                    bytes([cmd]) + gen.rand_bytes(rng, 7)]
+                    bytes([cmd]) + gen.rand_bytes(rng, 7),
+                    bytes([cmd]) + RC.mux(0x5FF0, 1) + le32(4)]          # names an object that does not exist
         for pl in payloads:
             run.step(0, RC.abort_frame(0, 0, 0x08000000))         # back to idle (C05 checks that this works)
             sync_model(world, sim)
@@ -336,18 +344,42 @@ def c04_state_sweep(res, run, world, rng, st, cmds):
                 after = sim.dump()
                 # a refusal changes nothing - except bytes a streaming transfer already delivered to its own domain (open, A.1)
                 diff = [k for k, a, b in zip(world.order, before, after) if a != b]
-                diff = [k for k in diff if k != (dom.idx, dom.sub)]
+                if st not in IDLE_LIKE:
+                    diff = [k for k in diff if k != (dom.idx, dom.sub)]
                 if diff:
                     res.violation("c04/refusal-changed-storage/%s" % st, "%s: aborted with %08x but %r changed" % (what, code, diff[:3]), sim=sim)
                     return False
-                if st == "idle" and (cmd & 0xE0) in (0x00, 0x60) and code not in (E_CMD, E_TBIT):
+                if st in IDLE_LIKE and (cmd & 0xE0) in (0x00, 0x60) and code not in (E_CMD, E_TBIT):
                     res.violation("c04/verdict/segment-without-transfer", "%s: abort %08x, expected 0504 0001h" % (what, code), sim=sim)
                     return False
-                if st == "idle" and ((cmd & 0xE0) in (0xE0,) or (0x81 <= cmd <= 0x9F)) and code != E_CMD:
+                if st in IDLE_LIKE and ((cmd & 0xE0) in (0xE0,) or (0x81 <= cmd <= 0x9F)) and code != E_CMD:
                     res.violation("c04/verdict/unknown-command", "%s: abort %08x, expected 0504 0001h" % (what, code), sim=sim)
                     return False
+            is_init = (cmd & 0xE0) == 0x20 or (cmd & 0xE0) == 0x40 or (cmd & 0xE3) == 0xA0 or (cmd & 0xE1) == 0xC0
+            strict_init = (cmd & 0xF0) == 0x20 or cmd == 0x40 or (cmd & 0xE3) == 0xA0 or (cmd & 0xF9) == 0xC0
+            if st in IDLE_LIKE and cmd != 0x80 and not is_init:
+                if len(resp) != 1 or resp[0][0] != 0x80:
+                    res.violation("c04/verdict/not-refused/%s" % ("completed" if st != "idle" else "idle"),
+                                  "%s: a command that fits no state (server idle) was answered %s instead of an abort" % (what, [r.hex() for r in resp]), sim=sim)
+                    return False
+            if (st in IDLE_LIKE or st in ("segdn", "segup")) and strict_init and pl[1:4] == RC.mux(0x5FF0, 1):
+                code = parse_abort(resp[0]) if len(resp) == 1 else None
+                if code != E_OBJ or resp[0][1:4] != pl[1:4]:
+                    res.violation("c04/verdict/absent-object/%s" % st, "%s: initiate for a non-existent object answered %s, reference abort 0602 0000h for 5FF0h:1" % (what, [r.hex() for r in resp]), sim=sim)
+                    return False
+            if len(resp) == 1 and resp[0][0] != 0x80 and (st in IDLE_LIKE or st in ("segdn", "segup")) and strict_init:
+                r = resp[0]
+                k = (pl[1] | (pl[2] << 8), pl[3])
+                o = world.om.get(k)
+                if o is not None and o.kind in ("int", "dom", "str") and o.readable:
+                    if r[0] == 0x41 and int.from_bytes(r[4:8], "little") != o.size():
+                        res.violation("c04/upload-size/%s" % st, "%s: segmented upload answer announces %d bytes, %04x:%02x has %d" % (what, int.from_bytes(r[4:8], "little"), k[0], k[1], o.size()), sim=sim)
+                        return False
+                    if (r[0] & 0xF9) == 0xC0 and (cmd & 0xE3) == 0xA0 and int.from_bytes(r[4:8], "little") != o.size():
+                        res.violation("c04/upload-size/%s" % st, "%s: block upload answer announces %d bytes, %04x:%02x has %d" % (what, int.from_bytes(r[4:8], "little"), k[0], k[1], o.size()), sim=sim)
+                        return False
             # positive initiate responses must concern the request's multiplexer
-            if len(resp) == 1 and resp[0][0] != 0x80 and st in ("idle", "segdn", "segup"):
+            if len(resp) == 1 and resp[0][0] != 0x80 and (st in IDLE_LIKE or st in ("segdn", "segup")):
                 r = resp[0]
                 is_init_req = (cmd & 0xE0) == 0x20 or cmd == 0x40 or (cmd & 0xF9) == 0xC0 or (cmd & 0xE3) == 0xA0
                 is_init_resp = r[0] == 0x60 or (r[0] & 0xE0) == 0x40 or (r[0] & 0xFB) == 0xA0 or (r[0] & 0xF9) == 0xC0
@@ -565,7 +597,7 @@ def configure(m, prop):
         m.VARIANTS = ["asan"]
         m.RULE = ("(a) upload request for every index 0000h..FFFFh x 4 sub-indices; (b) access matrix: every request kind x size class on every "
                   "object and on absent neighbours, verdict / abort code / multiplexer / storage compared with the CiA 301 rules; (c) enumerated "
-                  "protocol state (7) x command byte (256) x 6 payloads with the acceptable response counts of the relational model and "
+                  "protocol state (13, incl. six just-completed transfers after which the server must be idle) x command byte (256) x 7 payloads with the acceptable response counts of the relational model and "
                   "'refusal changes nothing' / 'positive initiate response concerns the named object'; (d) toggle errors at random positions; "
                   "non-trivial = refused request, state-sweep case or toggle case (distinct by request)")
         m.ASSUMPTIONS = ["behaviour CiA 301 leaves open is accepted in every listed alternative (DESIGN.md A.1): acknowledge of a client abort, "
